@@ -17,6 +17,10 @@ Step(e) ==
     [] e.op = "time_long" -> Common(e, IsoTimeLong(e.value[1], e.value[2]))
     [] e.op = "datetime" -> Common(e, IsoDateTime(e.value[1], e.value[2], e.value[3], e.value[4], e.value[5]))
     [] e.op = "instant" -> Common(e, IsoInstant(e.value[1], e.value[2], e.value[3], e.value[4], e.value[5]))
+    \* the reduced-precision / variable-precision built-ins (value = <<second of day, nanosecond>> or <<y, m, d, second, nanosecond>>)
+    [] e.op = "time_form" -> Common(e, IsoTimeForm(e.form, e.value[1], e.value[2]))
+    [] e.op = "datetime_form" -> Common(e, IsoDate(e.value[1], e.value[2], e.value[3]) \o <<LetterT>> \o IsoTimeForm(e.form, e.value[4], e.value[5]))
+    [] e.op = "instant_form" -> Common(e, IsoDate(e.value[1], e.value[2], e.value[3]) \o <<LetterT>> \o IsoTimeForm(e.form, e.value[4], e.value[5]) \o <<LetterZ>>)
     [] e.op = "offset" -> Common(e, IsoOffset(e.value[1], e.z))
 Init == l = 1
 Next == l <= Len(Events) /\ l' = l + 1 /\ Step(Events[l])
